@@ -39,7 +39,7 @@ func checkC07(c *fw.Ctx) {
 	if fn := mustFunc(c, "1 dispatch", "Allowed"); fn != nil {
 		c.CheckGate("1 dispatch", fn, "Allowed", fw.GuardCallBool("authEvents.Valid()", func(n string) bool { return strings.HasSuffix(n, ".Valid") }, true), fw.ErrNilSuccess(fn, fw.ErrIndex(fn), fw.IsTail(fw.NameIs("(*gmsl.allowerContext).allowed"))))
 		ok := len(fw.CallsTo(fn, false, fw.NameIs("(*gmsl.allowerContext).allowed"))) == 1
-		c.Check(ok, "1 dispatch", "Allowed decides through allowerContext.allowed", c.P.Pos(fn.Pos()), "", "Allowed does not return the verdict of the dispatcher")
+		c.Expect(ok, "1 dispatch", "Allowed decides through allowerContext.allowed", c.P.Pos(fn.Pos()), "", "Allowed does not return the verdict of the dispatcher")
 	}
 	checkDispatch(c)
 	checkMembershipDispatch(c)
